@@ -53,14 +53,13 @@ func stateBefore(s *Stream, k int) openAt {
 
 func C05(r *eng.Run) {
 	cfg := drawReadCfg(r, []int{AppReader, AppReader, AppNextReader, AppReadMessage, AppReadData})
-	cfg.Extended = false
 	r.SetEntry(cfg.Name())
-	s := GenStream(r, StreamCfg{Recv: cfg.Side, MaxMsgs: 3, TextValid: true, Budget: 8 * 1024})
+	s := GenStream(r, StreamCfg{Recv: cfg.Side, MaxMsgs: 3, TextValid: true, Budget: 8 * 1024, Rsv23: cfg.Extended})
 	// Where the offending frame goes: before frame k (k == len: after the end).
 	k := r.T.Int(sim.LFaultAt, len(s.Frames)+1)
 	st := stateBefore(s, k)
 	fragmented := st.msg != nil
-	recvState := ref.RecvState{Side: cfg.Side, Fragmented: fragmented}
+	recvState := ref.RecvState{Side: cfg.Side, Fragmented: fragmented, Extended: cfg.Extended}
 
 	bad := &ref.Frame{Fin: true, Op: ref.OpBinary, Masked: cfg.Side == ref.Server}
 	if fragmented {
@@ -71,9 +70,12 @@ func C05(r *eng.Run) {
 		bad.Mask = drawMask(r)
 	}
 	payLen := r.T.Int(sim.LLen, 40)
-	kinds := []string{"reserved", "ctrl_long", "ctrl_nonfinal", "rsv", "mask", "nested_or_stray"}
+	kinds := []string{"reserved", "ctrl_long", "ctrl_nonfinal", "mask", "nested_or_stray"}
+	if !cfg.Extended {
+		kinds = append(kinds, "rsv")
+	}
 	if cfg.App == AppReader {
-		kinds = append(kinds, "oversize", "oversize")
+		kinds = append(kinds, "oversize", "oversize", "oversize_ctrl")
 	}
 	kind := kinds[r.T.Int(sim.LFault, len(kinds))]
 	switch kind {
@@ -111,6 +113,26 @@ func C05(r *eng.Run) {
 			bad.Op = ref.OpCont
 		}
 		bad.Fin = r.T.Bool(sim.LFault)
+	case "oversize_ctrl":
+		// A control frame (possibly between fragments) above a limit < 125.
+		var maxBefore int64
+		for _, f := range s.Frames[:k] {
+			if int64(len(f.Payload)) > maxBefore {
+				maxBefore = int64(len(f.Payload))
+			}
+		}
+		if maxBefore >= 124 {
+			kind = "ctrl_nonfinal"
+			bad.Op, bad.Fin = ref.OpPing, false
+			break
+		}
+		lo := maxBefore
+		if lo == 0 {
+			lo = 1
+		}
+		payLen = int(lo) + 1 + r.T.Int(sim.LLen, 125-int(lo))
+		cfg.MaxFrameSize = lo + int64(r.T.Int(sim.LSize, payLen-int(lo)))
+		bad.Op, bad.Fin = []byte{ref.OpPing, ref.OpPong}[r.T.Int(sim.LOp, 2)], true
 	case "oversize":
 		var maxBefore int64
 		for _, f := range s.Frames[:k] {
@@ -133,8 +155,16 @@ func C05(r *eng.Run) {
 		bad.Payload[i] = 0xEE // marker bytes: must never be delivered
 	}
 	broken := ref.Broken(recvState, bad.Op, bad.Fin, bad.Rsv, bad.Masked, int64(payLen))
-	if kind == "oversize" {
+	if kind == "oversize" || kind == "oversize_ctrl" {
 		broken = append(broken, "max_frame_size")
+	}
+	if cfg.Extended {
+		// RSV2/RSV3 are legal here: they must not make the reader lenient
+		// about the rule that is actually broken.
+		bad.Rsv = byte(r.T.Int(sim.LMisc, 4))
+		if bad.Rsv != 0 {
+			r.Probe("violation_with_rsv_bits_in_extended_state")
+		}
 	}
 	if len(broken) == 0 {
 		r.Internalf("C05 generator produced a frame that breaks no rule: %s in state %+v", frameStr(bad), recvState)
@@ -358,13 +388,23 @@ func C07(r *eng.Run) {
 	}
 	cfg := drawReadCfg(r, []int{AppReader, AppReader, AppReadMessage, AppReadData})
 	cfg.CheckUTF8 = true
-	cfg.NoDiscard = true
 	cfg.Extended = false
+	cfg.OnCont = false
 	if cfg.App == AppReadData && cfg.Variant == 3 {
 		cfg.Variant = 2
 	}
 	r.SetEntry(cfg.Name())
 	s := genTextStream(r, cfg.Side)
+	// Valid text and binary messages may be abandoned half-read (Discard),
+	// also in the middle of a multi-byte sequence; an invalid text message is
+	// always read to its end (discarding is not delivering).
+	cfg.MustRead = func(unit int) bool {
+		if unit >= len(s.Items) {
+			return true
+		}
+		m := s.Items[unit].Msg
+		return m.Op == ref.OpText && !utf8.Valid(m.Payload)
+	}
 	p := NewPipe(r, s.Wire)
 	p.Marks = MarksOf(s.Frames)
 	p.SegMode = DrawSeg(r)
